@@ -204,7 +204,7 @@ package dram
 //@   requires m.comp != nil
 //@   assigns nothing
 //@   loop 0: invariant -1 <= rangeindex && rangeindex < len(m.comp.State.Transactions)
-//@   loop 1: invariant -1 <= rangeindex
+//@   loop 1: invariant -1 <= rangeindex && rangeindex < len(t.SubTransactions)
 
 // ---- reset: in-flight bookkeeping cleared, agent enabled, then ONE ack ----
 //@ pred c18SpecOK(m) = 0 <= m.comp.spec.NumRank && m.comp.spec.NumRank <= 1024 && 0 <= m.comp.spec.NumBankGroup && m.comp.spec.NumBankGroup <= 1024 && 0 <= m.comp.spec.NumBank && m.comp.spec.NumBank <= 1024
